@@ -166,12 +166,22 @@ type verifConn struct {
 	out     verifSink
 	closed  int
 	onWrite func(p []byte)
+	// yieldOnWrite: a write to the socket is a point where the goroutine can be descheduled
+	yieldOnWrite bool
 }
 
 func (c *verifConn) Read(p []byte) (int, error) { return c.in.Read(p) }
 func (c *verifConn) Write(p []byte) (int, error) {
 	if c.onWrite != nil {
 		c.onWrite(p)
+	}
+	if c.yieldOnWrite {
+		// the bytes reach the socket in two steps with a scheduling point in between
+		h := len(p) / 2
+		c.out.Write(p[:h])
+		verifrt.Yield()
+		_, err := c.out.Write(p[h:])
+		return len(p), err
 	}
 	return c.out.Write(p)
 }
